@@ -29,6 +29,10 @@ type script struct {
 	creset bool
 	cstall bool
 	has    bool // has a CONNECT script
+	// reply cases: close the connection properly after the reply (fin); after a 2xx CONNECT reply go on
+	// as a tunnel to the scripted peer behind the virtual port (ctunnel)
+	fin     bool
+	ctunnel bool
 }
 
 // env is everything a child process sets up: scripted peers and the proxies under test.
@@ -43,9 +47,11 @@ type env struct {
 	blackhole *rig.Blackhole
 	refused   string
 	refuser   *rig.Refuser
+	resetter  *rig.Peer
 	proxies   map[string]*rig.Proxy
 	labelReg  *prometheus.Registry
 	scripts   sync.Map // case id -> *script
+	used      sync.Map // proxy name -> true: the instances the batch went through
 	targets   map[string]string // virtual port -> real address (for the upstream proxy's tunnels)
 }
 
@@ -91,6 +97,9 @@ func (e *env) serveOrigin(pc *rig.PeerConn) {
 		}
 		id := req.Get("Case-Id")
 		v, ok := e.scripts.Load(id)
+		if ok && v.(*script).has && len(v.(*script).reply) == 0 {
+			ok = false // the case scripts the CONNECT reply only: the request behind the tunnel is served normally
+		}
 		if !ok {
 			keep := !strings.EqualFold(req.Get("Connection"), "close")
 			h := "HTTP/1.1 200 OK\r\nContent-Length: 8\r\nX-Probe: " + id + "\r\n"
@@ -108,6 +117,9 @@ func (e *env) serveOrigin(pc *rig.PeerConn) {
 		}
 		sc := v.(*script)
 		if !e.play(pc, sc.reply, sc.k, sc.reset) || sc.eof {
+			if sc.fin {
+				pc.Close() // a TLS peer ends with close_notify
+			}
 			return
 		}
 	}
@@ -153,6 +165,9 @@ func (e *env) serveUpstream(pc *rig.PeerConn) {
 			}
 			sc := v.(*script)
 			if !e.play(pc, sc.reply, sc.k, sc.reset) || sc.eof {
+				if sc.fin {
+					pc.Close()
+				}
 				return
 			}
 			continue
@@ -168,6 +183,16 @@ func (e *env) serveUpstream(pc *rig.PeerConn) {
 				return
 			}
 			e.play(pc, sc.creply, sc.ck, sc.creset)
+			if sc.ctunnel && sc.ck < 0 && replyIs2xx(sc.creply) {
+				// the reply, however odd, says the tunnel stands: behave like it
+				_, port, _ := net.SplitHostPort(req.Target)
+				if addr, ok := e.targets[port]; ok {
+					if back, err := net.DialTimeout("tcp", addr, 2*time.Second); err == nil {
+						pipe(pc, back)
+						return
+					}
+				}
+			}
 			if sc.ck < 0 {
 				// a complete rejection: a real proxy would keep or close the connection; close it
 				pc.Close()
@@ -246,6 +271,9 @@ func newEnv(root string) (*env, error) {
 		return nil, err
 	}
 	e.refuser, e.refused = rf, rf.Addr
+	if e.resetter, err = rig.NewRawPeer("resetter", func(pc *rig.PeerConn) { pc.Abort() }); err != nil {
+		return nil, err
+	}
 	// TLS fault endpoints
 	okTLS := func(pc *rig.PeerConn) { e.serveOrigin(pc) }
 	expired, err := e.ca.Leaf(time.Now().Add(-48*time.Hour), time.Now().Add(-24*time.Hour), "*.expired.test")
@@ -313,6 +341,7 @@ func newEnv(root string) (*env, error) {
 	e.targets[portTLSOrigin] = e.tlsOrigin.Addr
 	e.targets[portProbe] = e.probe.Addr
 	e.targets[portRefused] = e.refused
+	e.targets[portReset] = e.resetter.Addr
 	for name, p := range e.tlsFaults {
 		e.targets[tlsFaultPorts[name]] = p.Addr
 	}
@@ -320,6 +349,8 @@ func newEnv(root string) (*env, error) {
 		rig.Route("", portBlackhole, e.blackhole.Addr),
 		rig.Route("", portUpstream, e.upstream.Addr),
 		rig.Route("", portUpDead, e.refused),
+		rig.Route("", portUpHole, e.blackhole.Addr),
+		rig.Route("", portUpReset, e.resetter.Addr),
 	}
 	for port, addr := range e.targets {
 		routes = append(routes, rig.Route("", port, addr))
@@ -353,8 +384,13 @@ func newEnv(root string) (*env, error) {
 				case "up":
 					cfg.UpstreamProxy = rig.MustURL("http://upstream.test:" + portUpstream)
 					cfg.ResponseModifiers = append(cfg.ResponseModifiers, upRules...)
-				case "dead":
-					cfg.UpstreamProxy = rig.MustURL("http://upstream.test:" + portUpDead)
+				case "dead", "hole", "rst", "sdead", "shole", "srst":
+					scheme := "http"
+					if strings.HasPrefix(upstream, "s") {
+						scheme = "https"
+					}
+					port := map[string]string{"dead": portUpDead, "hole": portUpHole, "rst": portUpReset}[strings.TrimPrefix(upstream, "s")]
+					cfg.UpstreamProxy = rig.MustURL(scheme + "://upstream.test:" + port)
 				}
 				// command/run always hands over a registry; MITM and the TLS listener need one
 				cfg.PromRegistry = prometheus.NewRegistry()
@@ -381,6 +417,11 @@ func newEnv(root string) (*env, error) {
 		{"direct", "", false, false, nil}, {"mitm", "", true, false, nil}, {"up", "up", false, false, nil},
 		{"upmitm", "up", true, false, nil}, {"dead", "dead", false, false, nil}, {"deadmitm", "dead", true, false, nil},
 		{"tls", "", false, true, nil}, {"label", "", false, false, e.labelReg},
+		{"hole", "hole", false, false, nil}, {"holemitm", "hole", true, false, nil},
+		{"rst", "rst", false, false, nil}, {"rstmitm", "rst", true, false, nil},
+		{"sdead", "sdead", false, false, nil}, {"sdeadmitm", "sdead", true, false, nil},
+		{"shole", "shole", false, false, nil}, {"sholemitm", "shole", true, false, nil},
+		{"srst", "srst", false, false, nil}, {"srstmitm", "srst", true, false, nil},
 	} {
 		if err := mk(pd.name, pd.up, pd.mitm, pd.tls, pd.reg); err != nil {
 			return nil, fmt.Errorf("proxy %s: %w", pd.name, err)
@@ -398,9 +439,12 @@ func (e *env) proxyFor(c *Case) (string, *rig.Proxy) {
 	case c.Kind == "client" && c.Via == "tls":
 		name = "tls"
 	case c.Via == "mitm":
-		name = map[string]string{"": "mitm", "up": "upmitm", "dead": "deadmitm"}[c.Upstream]
+		name = c.Upstream + "mitm"
+	case c.Upstream == "":
+		name = "direct"
 	default:
-		name = map[string]string{"": "direct", "up": "up", "dead": "dead"}[c.Upstream]
+		name = c.Upstream
 	}
+	e.used.Store(name, true)
 	return name, e.proxies[name]
 }
